@@ -1,6 +1,8 @@
 -------------------------- MODULE ErrorReportTrace --------------------------
 (* Observations of the real ExceptionTrace / Highlighter checked against ErrorReport and Assemble.
-   Every trace is one event:
+   A trace is one event, or - a history - several "render" events: renders of one exception in one process, in order,
+   each with its own ignore pattern and verbosity (its c.ignoring / c.frames[k].ign are those of THAT render); every
+   event is decided on its own, which is exactly the claim that earlier renders do not matter.  Events:
      op = "render"     c = the case  [simple, verb, ignoring, name, msg, frames : Seq([ign]), recursion, origin]
                        o = the observation [esc, lines, head, listing, snippets]   (see ErrorReport; a snippet row also
                            carries feat = a tag for the kind of source row, used to tell findings apart)
